@@ -36,6 +36,7 @@ def check(ctx):
     ctx.rule("C08-G", "a link whose children are all shallow-empty builds no Link node")
     ctx.rule("C08-H", "a Link node's target and children are taken apart only by the Link arm of the render walk (which numbers it) "
              "and by the estimate / emptiness / debug functions: no other code renders a link's content past the numbering")
+    ctx.guard("C08-E", rule_e2)
     for fn in (rule_a, rule_b, rule_c, rule_d, rule_e, rule_f, rule_g, rule_h):
         ctx.guard(fn.__name__.replace("rule_", "C08-").upper(), fn)
 
@@ -298,6 +299,30 @@ def rule_e(ctx):
             covered_by_data = True
     ctx.check(covered_by_data or modes == {"on", "off"}, "C08-E", "finalise:both-settings-reach-the-decorator", fin.span, fin.id,
               "decorator.finalise must be called whether or not footnotes are included (found %s)" % sorted(modes))
+
+
+LIST_MUTATORS = ("dedup", "dedup_by", "dedup_by_key", "sort", "sort_by", "sort_by_key", "sort_unstable", "retain", "retain_mut", "truncate", "remove",
+                 "swap_remove", "pop", "reverse", "drain", "swap", "insert", "split_off", "clear", "rotate_left", "rotate_right")
+
+
+def rule_e2(ctx):
+    """between collection and the decorator's finalise the list of targets is handed on as it is: the [k] references are
+    already in the text, so any removal or reordering afterwards breaks the correspondence"""
+    F = ctx.facts
+    n = 0
+    for fn in ("SubRenderer::<D>::finalise", "render_tree_to_string", "TextRenderer::<D>::into_inner"):
+        b = F.one(fn)
+        for x in [b] + [c for _b, c in transitive_closures(F, b)]:
+            for bb, t in x.calls(lambda cd, t: callee_method(t) in LIST_MUTATORS):
+                tys = " ".join([(t.get("callee") or {}).get("self_ty", "")] + ((t.get("callee") or {}).get("targs") or []))
+                if "String" not in tys:
+                    continue
+                n += 1
+                ctx.violation("C08-E", "links:%s@%s" % (callee_method(t), fn_key(x)), t["span"], x.id,
+                              "%s() on the list of link targets after the references were written: entry k is no longer the target "
+                              "of the k-th link" % callee_method(t))
+    if not n:
+        ctx.ok("C08-E", "links:handed-on-unmodified", "", "", "no removal/reordering of the target list in finalise / render_tree_to_string / into_inner", how="auto")
 
 
 def rule_f(ctx):
